@@ -6,6 +6,19 @@ import traceback
 from .evidence import Stats
 
 NPROC = int(os.environ.get('VERIF_PROCS', '0')) or min(16, os.cpu_count() or 1)
+# once this many violations that are not listed as known findings have been collected, the remaining work of a family is abandoned: the
+# verdict is settled, and on a tree that breaks a property in most executions (an endless reconnect loop ...) every further execution only
+# costs time.  The evidence then says that the family was cut short.  0 disables.
+FAILFAST = int(os.environ.get('VERIF_FAILFAST', '1500'))
+_known_sigs = None
+
+
+def _unknown_violations(stats):
+    global _known_sigs
+    if _known_sigs is None:
+        from .evidence import load_known
+        _known_sigs = set(f.get('signature') for f in load_known().get('findings', []) if isinstance(f, dict))
+    return sum(1 for v in stats.violations if v['sig'] not in _known_sigs)
 
 
 def _run_chunk(args):
@@ -55,6 +68,13 @@ def pmap(func, items, extra=(), chunk=None, procs=None, stats=None):
         return stats
     ctx = multiprocessing.get_context('fork')
     with ctx.Pool(procs) as pool:
+        done = 0
         for st in pool.imap_unordered(_run_chunk, [(func, c, extra) for c in chunks]):
             stats.merge(st)
+            done += 1
+            if FAILFAST and done < len(chunks) and _unknown_violations(stats) >= FAILFAST:
+                stats.caps.append('%s: abandoned after %d of %d chunks with %d violations collected (VERIF_FAILFAST)' % (
+                    getattr(func, '__name__', '?'), done, len(chunks), _unknown_violations(stats)))
+                pool.terminate()
+                break
     return stats
